@@ -38,7 +38,7 @@ func (p *propC18) ProbeNames() []string {
 func (p *propC18) Prepare(seed uint64, tier string) int {
 	p.seed, p.tier = seed, tier
 	p.count = 60000
-	if tier == "thorough" {
+	if isThorough(tier) {
 		p.count = 2000000
 	}
 	return p.count
